@@ -18,16 +18,47 @@
 
 #include <functional>
 
+#include <tao/pegtl/buffer_input.hpp>
+
 #include "harness/report.hpp"
 
 namespace p = TAO_PEGTL_NAMESPACE;
 
 static vf::report R;
 
+// an incremental reader that hands out one byte per call: a rule must ask the input for as many bytes as it needs
+struct one_byte_reader
+{
+   const char* p;
+   const char* e;
+   std::size_t operator()( char* buf, const std::size_t len )
+   {
+      if( p == e || len == 0 ) {
+         return 0;
+      }
+      *buf = *p++;
+      return 1;
+   }
+};
+
+static bool g_through_buffer = false;  // second pass of a sample of the candidates: the same rule on a buffer_input
+
 // returns number of bytes consumed on success, -1 on local failure, -2 on exception
 template< typename Rule >
 static int run( const char* b, const char* e )
 {
+   if( g_through_buffer ) {
+      p::buffer_input< one_byte_reader, p::eol::lf_crlf, const char*, 4 > in( "", 32, one_byte_reader{ b, e } );
+      try {
+         if( p::parse< Rule >( in ) ) {
+            return int( in.byte() );
+         }
+         return in.byte() == 0 ? -1 : -3;
+      }
+      catch( ... ) {
+         return -2;
+      }
+   }
    p::memory_input< p::tracking_mode::lazy, p::eol::lf_crlf, const char* > in( b, e, "" );
    try {
       if( p::parse< Rule >( in ) ) {
@@ -99,6 +130,13 @@ static std::vector< byte_rule > byte_rules()
       { "range<7f,7f>", &run< range< char( 0x7f ), char( 0x7f ) > >, []( int c ) { return c == 0x7f; } },
       { "not_range<80,ff>", &run< not_range< char( 0x80 ), char( 0xff ) > >, []( int c ) { return !( char( c ) >= char( 0x80 ) && char( c ) <= char( 0xff ) ); } },
       { "not_range<a,z>", &run< not_range< 'a', 'z' > >, []( int c ) { return !( c >= 'a' && c <= 'z' ); } },
+      { "not_range<m,m>", &run< not_range< 'm', 'm' > >, []( int c ) { return c != 'm'; } },
+      { "not_range<80,80>", &run< not_range< char( 0x80 ), char( 0x80 ) > >, []( int c ) { return c != 0x80; } },
+      { "ranges<m,m>", &run< ranges< 'm', 'm' > >, []( int c ) { return c == 'm'; } },
+      { "uint8::range<80,80>", &run< uint8::range< 0x80, 0x80 > >, []( int c ) { return c == 0x80; } },
+      { "uint8::not_range<80,80>", &run< uint8::not_range< 0x80, 0x80 > >, []( int c ) { return c != 0x80; } },
+      { "uint8::mask_range<f0,a0,a0>", &run< uint8::mask_range< 0xf0, 0xa0, 0xa0 > >, []( int c ) { return ( c & 0xf0 ) == 0xa0; } },
+      { "uint8::mask_not_range<f0,a0,a0>", &run< uint8::mask_not_range< 0xf0, 0xa0, 0xa0 > >, []( int c ) { return ( c & 0xf0 ) != 0xa0; } },
       { "ranges<a,c,x,z,7f>", &run< ranges< 'a', 'c', 'x', 'z', char( 0x7f ) > >, []( int c ) { return ( c >= 'a' && c <= 'c' ) || ( c >= 'x' && c <= 'z' ) || c == 0x7f; } },
       { "ranges<0,1,80,81>", &run< ranges< char( 0 ), char( 1 ), char( 0x80 ), char( 0x81 ) > >, []( int c ) { return c == 0 || c == 1 || c == 0x80 || c == 0x81; } },
       { "uint8::any", &run< uint8::any >, []( int ) { return true; } },
@@ -285,6 +323,9 @@ static const std::vector< cp_rule >& utf8_rules()
       { "utf8::not_range<d7ff,e000>", &run< utf8::not_range< 0xd7ff, 0xe000 > >, []( std::uint32_t c ) { return !( c >= 0xd7ff && c <= 0xe000 ); } },
       { "utf8::ranges<0,7f,800,fff,10000>", &run< utf8::ranges< 0, 0x7f, 0x800, 0xfff, 0x10000 > >, []( std::uint32_t c ) { return c <= 0x7f || ( c >= 0x800 && c <= 0xfff ) || c == 0x10000; } },
       { "utf8::bom", &run< utf8::bom >, []( std::uint32_t c ) { return c == 0xfeff; } },
+      { "utf8::range<800,800>", &run< utf8::range< 0x800, 0x800 > >, []( std::uint32_t c ) { return c == 0x800; } },
+      { "utf8::not_range<800,800>", &run< utf8::not_range< 0x800, 0x800 > >, []( std::uint32_t c ) { return c != 0x800; } },
+      { "utf8::not_range<41,41>", &run< utf8::not_range< 0x41, 0x41 > >, []( std::uint32_t c ) { return c != 0x41; } },
    };
    return v;
 }
@@ -302,12 +343,23 @@ static void check_utf8( const unsigned char* cand, int n, const unsigned char gu
    std::uint32_t cp = 0;
    const int len = utf8_ref( cand, n, cp );
    const bool interesting = ( len > 1 ) || ( n > 0 && cand[ 0 ] >= 0x80 );
+   static std::uint64_t seq = 0;
+   const bool through_buffer = ( n <= 2 ) || ( ++seq % 61 == 0 );  // a sample of the candidates is also delivered byte by byte
    for( const auto& r : utf8_rules() ) {
       R.eval();
       const int got = r.fn( reinterpret_cast< const char* >( buf ), reinterpret_cast< const char* >( buf ) + n );
       const int want = ( len > 0 && r.in_set( cp ) ) ? len : -1;
       if( got != want ) {
          report_fail( "utf8", r.name, std::string( reinterpret_cast< const char* >( cand ), std::size_t( n ) ), got, want );
+      }
+      if( through_buffer ) {
+         R.eval();
+         g_through_buffer = true;
+         const int got2 = r.fn( reinterpret_cast< const char* >( buf ), reinterpret_cast< const char* >( buf ) + n );
+         g_through_buffer = false;
+         if( got2 != want ) {
+            report_fail( "utf8/buffer_input", r.name, std::string( reinterpret_cast< const char* >( cand ), std::size_t( n ) ), got2, want );
+         }
       }
    }
    if( interesting ) {
@@ -439,6 +491,9 @@ static const std::vector< cp_rule >& utf16_rules()
       { "utf16_be::not_range<100,ffff>", &run< utf16_be::not_range< 0x100, 0xffff > >, []( std::uint32_t c ) { return !( c >= 0x100 && c <= 0xffff ); } },
       { "utf16_be::ranges<0,ff,10000,1ffff,feff>", &run< utf16_be::ranges< 0, 0xff, 0x10000, 0x1ffff, 0xfeff > >, []( std::uint32_t c ) { return c <= 0xff || ( c >= 0x10000 && c <= 0x1ffff ) || c == 0xfeff; } },
       { "utf16_be::bom", &run< utf16_be::bom >, []( std::uint32_t c ) { return c == 0xfeff; } },
+      { "utf16_be::range<10000,10000>", &run< utf16_be::range< 0x10000, 0x10000 > >, []( std::uint32_t c ) { return c == 0x10000; } },
+      { "utf16_be::not_range<10000,10000>", &run< utf16_be::not_range< 0x10000, 0x10000 > >, []( std::uint32_t c ) { return c != 0x10000; } },
+      { "utf16_be::not_range<41,41>", &run< utf16_be::not_range< 0x41, 0x41 > >, []( std::uint32_t c ) { return c != 0x41; } },
    };
    static const std::vector< cp_rule > le = {
       { "utf16_le::any", &run< utf16_le::any >, []( std::uint32_t ) { return true; } },
@@ -449,6 +504,9 @@ static const std::vector< cp_rule >& utf16_rules()
       { "utf16_le::not_range<100,ffff>", &run< utf16_le::not_range< 0x100, 0xffff > >, []( std::uint32_t c ) { return !( c >= 0x100 && c <= 0xffff ); } },
       { "utf16_le::ranges<0,ff,10000,1ffff,feff>", &run< utf16_le::ranges< 0, 0xff, 0x10000, 0x1ffff, 0xfeff > >, []( std::uint32_t c ) { return c <= 0xff || ( c >= 0x10000 && c <= 0x1ffff ) || c == 0xfeff; } },
       { "utf16_le::bom", &run< utf16_le::bom >, []( std::uint32_t c ) { return c == 0xfeff; } },
+      { "utf16_le::range<10000,10000>", &run< utf16_le::range< 0x10000, 0x10000 > >, []( std::uint32_t c ) { return c == 0x10000; } },
+      { "utf16_le::not_range<10000,10000>", &run< utf16_le::not_range< 0x10000, 0x10000 > >, []( std::uint32_t c ) { return c != 0x10000; } },
+      { "utf16_le::not_range<41,41>", &run< utf16_le::not_range< 0x41, 0x41 > >, []( std::uint32_t c ) { return c != 0x41; } },
    };
    return BE ? be : le;
 }
@@ -470,12 +528,23 @@ static void check_utf16( const unsigned char* cand, int n )
    }
    std::uint32_t cp = 0;
    const int len = utf16_ref< BE >( cand, n, cp );
+   static std::uint64_t seq = 0;
+   const bool through_buffer = ( n < 4 && ( ++seq % 5 == 0 ) ) || ( ++seq % 37 == 0 );
    for( const auto& r : utf16_rules< BE >() ) {
       R.eval();
       const int got = r.fn( reinterpret_cast< const char* >( buf ), reinterpret_cast< const char* >( buf ) + n );
       const int want = ( len > 0 && r.in_set( cp ) ) ? len : -1;
       if( got != want ) {
          report_fail( BE ? "utf16_be" : "utf16_le", r.name, std::string( reinterpret_cast< const char* >( cand ), std::size_t( n ) ), got, want );
+      }
+      if( through_buffer ) {
+         R.eval();
+         g_through_buffer = true;
+         const int got2 = r.fn( reinterpret_cast< const char* >( buf ), reinterpret_cast< const char* >( buf ) + n );
+         g_through_buffer = false;
+         if( got2 != want ) {
+            report_fail( BE ? "utf16_be/buffer_input" : "utf16_le/buffer_input", r.name, std::string( reinterpret_cast< const char* >( cand ), std::size_t( n ) ), got2, want );
+         }
       }
    }
    const unsigned u = n >= 2 ? rd16< BE >( cand ) : 0;
@@ -547,6 +616,8 @@ static const std::vector< cp_rule >& utf32_rules()
       { "utf32_be::range<d000,efff>", &run< utf32_be::range< 0xd000, 0xefff > >, []( std::uint32_t c ) { return c >= 0xd000 && c <= 0xefff; } },
       { "utf32_be::not_range<0,10fffe>", &run< utf32_be::not_range< 0, 0x10fffe > >, []( std::uint32_t c ) { return c > 0x10fffe; } },
       { "utf32_be::ranges<0,ff,10000,10ffff,feff>", &run< utf32_be::ranges< 0, 0xff, 0x10000, 0x10ffff, 0xfeff > >, []( std::uint32_t c ) { return c <= 0xff || c >= 0x10000 || c == 0xfeff; } },
+      { "utf32_be::range<e000,e000>", &run< utf32_be::range< 0xe000, 0xe000 > >, []( std::uint32_t c ) { return c == 0xe000; } },
+      { "utf32_be::not_range<e000,e000>", &run< utf32_be::not_range< 0xe000, 0xe000 > >, []( std::uint32_t c ) { return c != 0xe000; } },
    };
    static const std::vector< cp_rule > le = {
       { "utf32_le::any", &run< utf32_le::any >, []( std::uint32_t ) { return true; } },
@@ -555,6 +626,8 @@ static const std::vector< cp_rule >& utf32_rules()
       { "utf32_le::range<d000,efff>", &run< utf32_le::range< 0xd000, 0xefff > >, []( std::uint32_t c ) { return c >= 0xd000 && c <= 0xefff; } },
       { "utf32_le::not_range<0,10fffe>", &run< utf32_le::not_range< 0, 0x10fffe > >, []( std::uint32_t c ) { return c > 0x10fffe; } },
       { "utf32_le::ranges<0,ff,10000,10ffff,feff>", &run< utf32_le::ranges< 0, 0xff, 0x10000, 0x10ffff, 0xfeff > >, []( std::uint32_t c ) { return c <= 0xff || c >= 0x10000 || c == 0xfeff; } },
+      { "utf32_le::range<e000,e000>", &run< utf32_le::range< 0xe000, 0xe000 > >, []( std::uint32_t c ) { return c == 0xe000; } },
+      { "utf32_le::not_range<e000,e000>", &run< utf32_le::not_range< 0xe000, 0xe000 > >, []( std::uint32_t c ) { return c != 0xe000; } },
    };
    return BE ? be : le;
 }
@@ -567,12 +640,23 @@ static void check_utf32( std::uint32_t v, int n )
    wr32< BE >( buf + 4, 0x41 );
    // D90: valid iff scalar value
    const bool valid = n == 4 && v <= 0x10ffff && !( v >= 0xd800 && v <= 0xdfff );
+   static std::uint64_t seq = 0;
+   const bool through_buffer = n < 4 || ( ++seq % 211 == 0 ) || ( v >= 0xd7f0 && v <= 0xe010 ) || ( v >= 0x10fff0 && v <= 0x110010 );
    for( const auto& r : utf32_rules< BE >() ) {
       R.eval();
       const int got = r.fn( reinterpret_cast< const char* >( buf ), reinterpret_cast< const char* >( buf ) + n );
       const int want = ( valid && r.in_set( v ) ) ? 4 : -1;
       if( got != want ) {
          report_fail( BE ? "utf32_be" : "utf32_le", r.name, std::string( reinterpret_cast< const char* >( buf ), std::size_t( n ) ), got, want );
+      }
+      if( through_buffer ) {
+         R.eval();
+         g_through_buffer = true;
+         const int got2 = r.fn( reinterpret_cast< const char* >( buf ), reinterpret_cast< const char* >( buf ) + n );
+         g_through_buffer = false;
+         if( got2 != want ) {
+            report_fail( BE ? "utf32_be/buffer_input" : "utf32_le/buffer_input", r.name, std::string( reinterpret_cast< const char* >( buf ), std::size_t( n ) ), got2, want );
+         }
       }
    }
    if( v >= 0xd000 ) {
@@ -640,6 +724,10 @@ static const std::vector< val_rule >& u16_rules()
       { #NS "::mask_not_one<5555,1111>", &run< NS::mask_not_one< 0x5555, 0x1111 > >, []( std::uint64_t v ) { return ( v & 0x5555 ) != 0x1111; } },                         \
       { #NS "::mask_range<0fff,0100,0200>", &run< NS::mask_range< 0x0fff, 0x0100, 0x0200 > >, []( std::uint64_t v ) { return ( v & 0x0fff ) >= 0x0100 && ( v & 0x0fff ) <= 0x0200; } }, \
       { #NS "::mask_not_range<aaaa,2000,8aaa>", &run< NS::mask_not_range< 0xaaaa, 0x2000, 0x8aaa > >, []( std::uint64_t v ) { return !( ( v & 0xaaaa ) >= 0x2000 && ( v & 0xaaaa ) <= 0x8aaa ); } }, \
+      { #NS "::range<1234,1234>", &run< NS::range< 0x1234, 0x1234 > >, []( std::uint64_t v ) { return v == 0x1234; } },                                                  \
+      { #NS "::not_range<1234,1234>", &run< NS::not_range< 0x1234, 0x1234 > >, []( std::uint64_t v ) { return v != 0x1234; } },                                          \
+      { #NS "::mask_range<ff00,1200,1200>", &run< NS::mask_range< 0xff00, 0x1200, 0x1200 > >, []( std::uint64_t v ) { return ( v & 0xff00 ) == 0x1200; } },              \
+      { #NS "::mask_not_range<ff00,1200,1200>", &run< NS::mask_not_range< 0xff00, 0x1200, 0x1200 > >, []( std::uint64_t v ) { return ( v & 0xff00 ) != 0x1200; } },      \
       { #NS "::mask_ranges<f0f0,1010,2020,f0f0>", &run< NS::mask_ranges< 0xf0f0, 0x1010, 0x2020, 0xf0f0 > >, []( std::uint64_t v ) { return ( ( v & 0xf0f0 ) >= 0x1010 && ( v & 0xf0f0 ) <= 0x2020 ) || ( v & 0xf0f0 ) == 0xf0f0; } }
    static const std::vector< val_rule > be = { U16RULES( uint16_be ) };
    static const std::vector< val_rule > le = { U16RULES( uint16_le ) };
@@ -656,6 +744,8 @@ static const std::vector< val_rule >& u32_rules()
       { #NS "::one<0,80000000,ffffffff,01020304>", &run< NS::one< 0, 0x80000000, 0xffffffff, 0x01020304 > >, []( std::uint64_t v ) { return v == 0 || v == 0x80000000 || v == 0xffffffff || v == 0x01020304; } }, \
       { #NS "::range<7fffffff,80000001>", &run< NS::range< 0x7fffffff, 0x80000001 > >, []( std::uint64_t v ) { return v >= 0x7fffffff && v <= 0x80000001ULL; } },                   \
       { #NS "::not_range<10000,fffeffff>", &run< NS::not_range< 0x10000, 0xfffeffff > >, []( std::uint64_t v ) { return !( v >= 0x10000 && v <= 0xfffeffffULL ); } },               \
+      { #NS "::not_range<01020304,01020304>", &run< NS::not_range< 0x01020304, 0x01020304 > >, []( std::uint64_t v ) { return v != 0x01020304; } },                               \
+      { #NS "::mask_not_range<ff0000ff,12000034,12000034>", &run< NS::mask_not_range< 0xff0000ff, 0x12000034, 0x12000034 > >, []( std::uint64_t v ) { return ( v & 0xff0000ffULL ) != 0x12000034ULL; } }, \
       { #NS "::mask_one<ff0000ff,12000034>", &run< NS::mask_one< 0xff0000ff, 0x12000034 > >, []( std::uint64_t v ) { return ( v & 0xff0000ffULL ) == 0x12000034ULL; } },             \
       { #NS "::mask_range<00ffff00,00010000,00020000>", &run< NS::mask_range< 0x00ffff00, 0x00010000, 0x00020000 > >, []( std::uint64_t v ) { return ( v & 0x00ffff00 ) >= 0x00010000 && ( v & 0x00ffff00 ) <= 0x00020000; } }
    static const std::vector< val_rule > be = { U32RULES( uint32_be ) };
@@ -673,6 +763,7 @@ static const std::vector< val_rule >& u64_rules()
       { #NS "::one<0,8000000000000000,ffffffffffffffff,0102030405060708>", &run< NS::one< 0, 0x8000000000000000ULL, 0xffffffffffffffffULL, 0x0102030405060708ULL > >, []( std::uint64_t v ) { return v == 0 || v == 0x8000000000000000ULL || v == 0xffffffffffffffffULL || v == 0x0102030405060708ULL; } }, \
       { #NS "::range<7fffffffffffffff,8000000000000001>", &run< NS::range< 0x7fffffffffffffffULL, 0x8000000000000001ULL > >, []( std::uint64_t v ) { return v >= 0x7fffffffffffffffULL && v <= 0x8000000000000001ULL; } }, \
       { #NS "::not_range<100000000,fffffffeffffffff>", &run< NS::not_range< 0x100000000ULL, 0xfffffffeffffffffULL > >, []( std::uint64_t v ) { return !( v >= 0x100000000ULL && v <= 0xfffffffeffffffffULL ); } }, \
+      { #NS "::not_range<0102030405060708,0102030405060708>", &run< NS::not_range< 0x0102030405060708ULL, 0x0102030405060708ULL > >, []( std::uint64_t v ) { return v != 0x0102030405060708ULL; } }, \
       { #NS "::mask_one<ff000000000000ff,1200000000000034>", &run< NS::mask_one< 0xff000000000000ffULL, 0x1200000000000034ULL > >, []( std::uint64_t v ) { return ( v & 0xff000000000000ffULL ) == 0x1200000000000034ULL; } }, \
       { #NS "::mask_range<00000000ffffffff,10,20>", &run< NS::mask_range< 0x00000000ffffffffULL, 0x10, 0x20 > >, []( std::uint64_t v ) { return ( v & 0xffffffffULL ) >= 0x10 && ( v & 0xffffffffULL ) <= 0x20; } }
    static const std::vector< val_rule > be = { U64RULES( uint64_be ) };
@@ -682,7 +773,7 @@ static const std::vector< val_rule >& u64_rules()
 }
 
 template< bool BE >
-static void check_val( const std::vector< val_rule >& rules, const char* part, std::uint64_t v, int width, int n )
+static void check_val( const std::vector< val_rule >& rules, const char* part, std::uint64_t v, int width, int n, bool through_buffer = false )
 {
    unsigned char buf[ 16 ];
    for( int i = 0; i < width; ++i ) {
@@ -698,6 +789,16 @@ static void check_val( const std::vector< val_rule >& rules, const char* part, s
       const int want = ( n == width && r.in_set( v ) ) ? width : -1;
       if( got != want ) {
          report_fail( part, r.name, std::string( reinterpret_cast< const char* >( buf ), std::size_t( n ) ), got, want );
+      }
+      if( through_buffer ) {
+         // the same unit delivered byte by byte: the rule must request all of its bytes from the input
+         R.eval();
+         g_through_buffer = true;
+         const int got2 = r.fn( reinterpret_cast< const char* >( buf ), reinterpret_cast< const char* >( buf ) + n );
+         g_through_buffer = false;
+         if( got2 != want ) {
+            report_fail( std::string( part ) + "/buffer_input", r.name, std::string( reinterpret_cast< const char* >( buf ), std::size_t( n ) ), got2, want );
+         }
       }
    }
    if( n == width ) {
@@ -729,10 +830,10 @@ static void part_uint( const vf::args& A )
 {
    const unsigned sh = A.shard, ns = A.nshards;
    for( std::uint64_t v = sh; v < 0x10000; v += ns ) {
-      check_val< BE >( u16_rules< BE >(), BE ? "uint16_be" : "uint16_le", v, 2, 2 );
+      check_val< BE >( u16_rules< BE >(), BE ? "uint16_be" : "uint16_le", v, 2, 2, v % 7 == 0 || ( v & 0xff ) == 0x34 || ( v >> 8 ) == 0x12 );
       if( v < 256 ) {
-         check_val< BE >( u16_rules< BE >(), BE ? "uint16_be" : "uint16_le", v << 8, 2, 1 );
-         check_val< BE >( u16_rules< BE >(), BE ? "uint16_be" : "uint16_le", v, 2, 0 );
+         check_val< BE >( u16_rules< BE >(), BE ? "uint16_be" : "uint16_le", v << 8, 2, 1, true );
+         check_val< BE >( u16_rules< BE >(), BE ? "uint16_be" : "uint16_le", v, 2, 0, v < 4 );
       }
    }
    {
@@ -750,9 +851,9 @@ static void part_uint( const vf::args& A )
          }
       }
       for( std::uint64_t v : vals ) {
-         check_val< BE >( u32_rules< BE >(), BE ? "uint32_be" : "uint32_le", v, 4, 4 );
+         check_val< BE >( u32_rules< BE >(), BE ? "uint32_be" : "uint32_le", v, 4, 4, true );
          for( int n = 0; n < 4; ++n ) {
-            check_val< BE >( u32_rules< BE >(), BE ? "uint32_be" : "uint32_le", v, 4, n );
+            check_val< BE >( u32_rules< BE >(), BE ? "uint32_be" : "uint32_le", v, 4, n, true );
          }
       }
       const std::uint64_t stride = A.thorough() ? 1 : 65521;
@@ -762,9 +863,9 @@ static void part_uint( const vf::args& A )
    }
    if( sh == 0 ) {
       for( std::uint64_t v : structured64() ) {
-         check_val< BE >( u64_rules< BE >(), BE ? "uint64_be" : "uint64_le", v, 8, 8 );
+         check_val< BE >( u64_rules< BE >(), BE ? "uint64_be" : "uint64_le", v, 8, 8, true );
          for( int n : { 0, 1, 4, 7 } ) {
-            check_val< BE >( u64_rules< BE >(), BE ? "uint64_be" : "uint64_le", v, 8, n );
+            check_val< BE >( u64_rules< BE >(), BE ? "uint64_be" : "uint64_le", v, 8, n, true );
          }
       }
       vf::rng g( A.seed * 77 + ( BE ? 1 : 2 ) );  // derived from VERIF_SEED; sampled part of the 64-bit space
